@@ -929,6 +929,30 @@ def d9(prog, ctx):
                          "cluster was cut" % b)
 
 
+def d10(prog, ctx):
+    """The statistics block logged for an experiment is that experiment's own."""
+    from . import c10 as _c10
+    DSPM = "src/dataset_processor.py"
+    n = 0
+    for m, q, f in prog.all_functions():
+        if m.rel != DSPM or getattr(f, "_class", None) is None or f._class.name != "DatasetProcessor":
+            continue
+        for c in walk_no_nested(f):
+            if isinstance(c, ast.Call) and isinstance(c.func, ast.Attribute) and c.func.attr in ("print_start", "dump") \
+                    and (dotted(c.func.value) or "").startswith("self.") and "stat" in dotted(c.func.value):
+                n += 1
+                loc = ".".join(dotted(c.func.value).split(".")[:2])
+                state, node = _c10.driver_location_state(prog, loc)
+                if state == "fresh":
+                    ctx.ok("D10", "%s:%d" % (DSPM, c.lineno), "%s: %s is freshly created for every experiment before %s()" % (q, loc, c.func.attr))
+                else:
+                    ctx.fail("D10", node if node is not None else c, q, src(c)[:90],
+                             "%s is %s in the per-experiment loop (no unconditional fresh write before its first use in an iteration): the "
+                             "alignment statistics %s for the second experiment of a run include the records of the first"
+                             % (loc, state, "logged" if c.func.attr == "print_start" else "saved"))
+    ctx.floor("D10", "statistics print/dump sites in DatasetProcessor", n, 2)
+
+
 def run(prog, ctx):
     ctx.rule("D5", "every mutable attribute initialised by a storage class's __init__ is re-initialised to the same value by its "
                    "reset() (and base reset is chained); the duplicate search loops have no early exit")
@@ -960,6 +984,9 @@ def run(prog, ctx):
                    "that reaches find_duplicates (class-level call graph): only such a branch keeps one of the identical records an "
                    "alignment gets in two sub-regions")
     d8(prog, ctx)
+    ctx.rule("D10", "the statistics object whose counts are logged / saved per experiment is a DatasetProcessor location written unconditionally, "
+                    "before any use, in every iteration of the per-experiment loop")
+    d10(prog, ctx)
     d9(prog, ctx)
     ctx.assume("D6/D7 take as given that the coverage bins of a cluster are exactly the 256-bp bins its alignments touch "
                "(AbstractAlignmentStorage.add_alignment) and that stored alignments are sorted by start (BAM order through the priority-queue merger); "
